@@ -17,10 +17,10 @@ theorem sortCases_mem' (ws : List Str) (w : Str) : w ∈ sortCases ws ↔ w ∈ 
 theorem accepts_iff_langFrom' (d : Dfa) (w : Word) : d.Accepts w ↔ d.LangFrom d.init w := by
   simp [Dfa.Accepts, Dfa.LangFrom, Dfa.isFinal, List.contains_iff_mem]
 
-/-- everything that changes the *text* of the pattern beyond the class options and capturing groups is off -/
-structure PlainPrint (cfg : Config) : Prop where
+/-- everything that changes the *text* of the pattern beyond the class options, capturing groups and the
+case-insensitivity flag is off -/
+structure PlainPrintCI (cfg : Config) : Prop where
   rep : cfg.rep = false
-  ci : cfg.ci = false
   esc : cfg.esc = false
   sur : cfg.sur = false
   verb : cfg.verb = false
@@ -28,14 +28,30 @@ structure PlainPrint (cfg : Config) : Prop where
   noEnd : cfg.noEnd = false
   color : cfg.color = false
 
-theorem plainPrint_cfgPlain (cap : Bool) : PlainPrint (cfgPlain cap) := ⟨rfl, rfl, rfl, rfl, rfl, rfl, rfl, rfl⟩
+/-- … and case-sensitive -/
+structure PlainPrint (cfg : Config) : Prop extends PlainPrintCI cfg where
+  ci : cfg.ci = false
+
+theorem plainPrint_cfgPlain (cap : Bool) : PlainPrint (cfgPlain cap) := ⟨⟨rfl, rfl, rfl, rfl, rfl, rfl, rfl⟩, rfl⟩
+
+theorem fmtRegExp_plainCI_eq (cfg : Config) (h : PlainPrintCI cfg) (e : Expr) :
+    fmtRegExp cfg e = ciPrefix cfg.ci ++ fmtRegExp (cfgPlain cfg.cap) e := by
+  have hb : bodyText cfg e = bodyText (cfgPlain cfg.cap) e :=
+    bodyText_congr (c1 := cfg) (c2 := cfgPlain cfg.cap) ⟨rfl, h.esc, h.sur, h.verb, h.color⟩ e
+  cases hci : cfg.ci with
+  | false =>
+    simp only [fmtRegExp, hci, h.verb, h.noStart, h.noEnd, h.color, cfgPlain, hb, Bool.and_false, Bool.false_eq_true,
+      ite_false, ciPrefix, List.nil_append, Bool.false_and]
+  | true =>
+    simp only [fmtRegExp, hci, h.verb, h.noStart, h.noEnd, h.color, cfgPlain, hb, Bool.and_false, Bool.false_eq_true,
+      ite_false, ite_true, ciPrefix, List.nil_append, Bool.false_and, Comp.flagI, paint, Gen.strFlagI, List.append_assoc]
+    have hR : ∀ x : Str, R ([40, 63, 105, 41] ++ x) = [40, 63, 105, 41] ++ R x := by
+      intro x; rw [R_append]; rfl
+    exact hR _
 
 theorem fmtRegExp_plain_eq (cfg : Config) (h : PlainPrint cfg) (e : Expr) :
     fmtRegExp cfg e = fmtRegExp (cfgPlain cfg.cap) e := by
-  have hb : bodyText cfg e = bodyText (cfgPlain cfg.cap) e :=
-    bodyText_congr (c1 := cfg) (c2 := cfgPlain cfg.cap) ⟨rfl, h.esc, h.sur, h.verb, h.color⟩ e
-  simp only [fmtRegExp, h.ci, h.verb, h.noStart, h.noEnd, h.color, cfgPlain, hb, Bool.and_false, Bool.false_eq_true,
-    ite_false]
+  rw [fmtRegExp_plainCI_eq cfg h.toPlainPrintCI, h.ci]; rfl
 
 theorem plainBs_atoms_nil (c : Cluster) (h : PlainBs c) (ha : atomsOf c = []) : c = [] := by
   cases c with
@@ -45,22 +61,32 @@ theorem plainBs_atoms_nil (c : Cluster) (h : PlainBs c) (ha : atomsOf c = []) : 
     rw [atomsOf_cons as hok gs] at ha
     exact absurd (List.append_eq_nil_iff.mp ha).1 hne
 
-/-- **C03 (and C02) for the model, all inputs** for every combination of the six class options, with or without
-capturing groups and everything else at its default: for every list of test cases containing a non-empty one, every
-segmentation meeting its contract and every string `s` of scalar values, `RegExp::from` succeeds, the printed text is
-accepted by `Regex::new`, and the compiled pattern matches `s` in full **iff `s` is obtained from some non-empty test
-case by replacing each code point independently by a member of what it was converted to** (the code point itself if
-it was not converted, any member of the shorthand class otherwise) -/
-theorem classes_exact (cfg : Config) (hp : PlainPrint cfg) (env : Env) (ws : List Str) (st : Stages)
-    (h : regExpFrom cfg env ws = .ok st) (hseg : ∀ w ∈ ws, SegOK env w) (hne : ∃ t ∈ ws, t ≠ [])
+/-- the test cases `RegExp::from` stores: with the case-insensitive option each one is replaced by its lower-cased
+form where that keeps the number of code points and still matches it -/
+def storedCases (cfg : Config) (env : Env) (ws : List Str) : List Str := if cfg.ci then lowerCases env ws else ws
+
+/-- **C03, C02 and C04 for the model, all inputs** for every combination of the six class options, with or without
+capturing groups, with or without the case-insensitive option, everything else at its default: for every list of test
+cases containing a non-empty one, every segmentation meeting its contract and every string `s` of scalar values,
+`RegExp::from` succeeds, the printed text is accepted by `Regex::new`, and the compiled pattern matches `s` in full
+**iff `s` is obtained from some non-empty stored test case by replacing each code point independently by a member of
+what it was converted to** (the code point itself — under `(?i)` any member of its simple-case-folding orbit — if it
+was not converted, any member of the shorthand class otherwise) -/
+theorem classes_exact_ci (cfg : Config) (hp : PlainPrintCI cfg) (env : Env) (ws : List Str) (st : Stages)
+    (h : regExpFrom cfg env ws = .ok st) (hseg : ∀ w ∈ storedCases cfg env ws, SegOK env w)
+    (hne : ∃ t ∈ storedCases cfg env ws, t ≠ [])
     (s : Str) (hs : ∀ c ∈ s, Scalar c) :
-    ∃ P, Spec.parse (fmtRegExp cfg st.finalAst) = some (⟨false, false⟩, P) ∧
-      (Spec.fullMatch false P s = true ↔ ∃ t ∈ ws, t ≠ [] ∧ atomsDen (t.map (convAtom cfg)) s) := by
+    ∃ P, Spec.parse (fmtRegExp cfg st.finalAst) = some (⟨cfg.ci, false⟩, P) ∧
+      (Spec.fullMatch cfg.ci P s = true ↔
+        ∃ t ∈ storedCases cfg env ws, t ≠ [] ∧ atomsDen cfg.ci (t.map (convAtom cfg)) s) := by
   have hanch : (cfg.noStart && cfg.noEnd) = false := by simp [hp.noStart]
-  simp only [regExpFrom, hp.ci, hanch, Bool.false_eq_true, ite_false] at h
-  have hseg' : ∀ w ∈ sortCases ws, SegOK env w := fun w hw => hseg w ((sortCases_mem' ws w).mp hw)
-  obtain ⟨f, hcl, hpl⟩ := clusters_atoms cfg hp.rep env (sortCases ws) hseg'
-  generalize hcls : graphemeClusters cfg env (sortCases ws) = cls at h hcl
+  simp only [regExpFrom, hanch, Bool.false_eq_true, ite_false] at h
+  change (match Dfa.minimize (Dfa.trie (graphemeClusters cfg env (sortCases (storedCases cfg env ws)))) Dfa.pickMin with
+    | none => _ | some dmin => _) = _ at h
+  generalize storedCases cfg env ws = ws1 at h hseg hne ⊢
+  have hseg' : ∀ w ∈ sortCases ws1, SegOK env w := fun w hw => hseg w ((sortCases_mem' ws1 w).mp hw)
+  obtain ⟨f, hcl, hpl⟩ := clusters_atoms cfg hp.rep env (sortCases ws1) hseg'
+  generalize hcls : graphemeClusters cfg env (sortCases ws1) = cls at h hcl
   have hclP : ∀ cl ∈ cls, PlainBs cl := by
     intro cl hc
     rw [hcl] at hc
@@ -86,7 +112,7 @@ theorem classes_exact (cfg : Config) (hp : PlainPrint cfg) (env : Env) (ws : Lis
   have hwf := ofDfa_wf cfg.cap m hlab hdfs hacyc
   have hlang := elimination_lang_acyclic cfg m (labelsBs_plain m hlab) hN hdfs hacyc
   obtain ⟨t0, ht0, ht0ne⟩ := hne
-  have hmem0 : t0 ∈ sortCases ws := (sortCases_mem' ws t0).mpr ht0
+  have hmem0 : t0 ∈ sortCases ws1 := (sortCases_mem' ws1 t0).mpr ht0
   have hwitness : f t0 ∈ cls ∧ f t0 ≠ [] := by
     refine ⟨by rw [hcl]; exact List.mem_map.mpr ⟨t0, hmem0, rfl⟩, ?_⟩
     intro hc
@@ -109,8 +135,8 @@ theorem classes_exact (cfg : Config) (hp : PlainPrint cfg) (env : Env) (ws : Lis
       have := (hlang (f t0))
       rw [← accepts_iff_langFrom', hacc, he] at this
       exact this.mpr hwitness
-  rw [fmtRegExp_plain_eq cfg hp, hof]
-  obtain ⟨P, hparse, hmatch⟩ := printed_accepts cfg.cap _ hwf s hs
+  rw [fmtRegExp_plainCI_eq cfg hp, hof]
+  obtain ⟨P, hparse, hmatch⟩ := printed_accepts_ci cfg.ci cfg.cap _ hwf s hs
   refine ⟨P, hparse, ?_⟩
   rw [hmatch]
   simp only [Expr.strLang, ← hof, hlangE]
@@ -119,12 +145,12 @@ theorem classes_exact (cfg : Config) (hp : PlainPrint cfg) (env : Env) (ws : Lis
     rw [hcl] at hw
     obtain ⟨t, ht, rfl⟩ := List.mem_map.mp hw
     have hpt := hpl t ht
-    refine ⟨t, (sortCases_mem' ws t).mp ht, ?_, by rw [← hpt.2]; exact hd⟩
+    refine ⟨t, (sortCases_mem' ws1 t).mp ht, ?_, by rw [← hpt.2]; exact hd⟩
     intro hc
     subst hc
     exact hwne (plainBs_atoms_nil _ hpt.1 (by rw [hpt.2]; rfl))
   · rintro ⟨t, htw, htne, hd⟩
-    have hmem : t ∈ sortCases ws := (sortCases_mem' ws t).mpr htw
+    have hmem : t ∈ sortCases ws1 := (sortCases_mem' ws1 t).mpr htw
     have hpt := hpl t hmem
     refine ⟨f t, ⟨by rw [hcl]; exact List.mem_map.mpr ⟨t, hmem, rfl⟩, ?_⟩, by rw [hpt.2]; exact hd⟩
     intro hc
@@ -134,16 +160,27 @@ theorem classes_exact (cfg : Config) (hp : PlainPrint cfg) (env : Env) (ws : Lis
     | nil => exact htne rfl
     | cons a r => simp [atomsOf] at this
 
+/-- the case-sensitive special case -/
+theorem classes_exact (cfg : Config) (hp : PlainPrint cfg) (env : Env) (ws : List Str) (st : Stages)
+    (h : regExpFrom cfg env ws = .ok st) (hseg : ∀ w ∈ ws, SegOK env w) (hne : ∃ t ∈ ws, t ≠ [])
+    (s : Str) (hs : ∀ c ∈ s, Scalar c) :
+    ∃ P, Spec.parse (fmtRegExp cfg st.finalAst) = some (⟨false, false⟩, P) ∧
+      (Spec.fullMatch false P s = true ↔ ∃ t ∈ ws, t ≠ [] ∧ atomsDen false (t.map (convAtom cfg)) s) := by
+  have hst : storedCases cfg env ws = ws := by simp [storedCases, hp.ci]
+  have := classes_exact_ci cfg hp.toPlainPrintCI env ws st h (by rw [hst]; exact hseg) (by rw [hst]; exact hne) s hs
+  rw [hst, hp.ci] at this
+  exact this
+
 /-- without class options every code point stays itself -/
 theorem convAtom_plain (cap : Bool) (c : Nat) : convAtom (cfgPlain cap) c = Atom.chr c := by
   have : convChar (cfgPlain cap) c = [c] := convChar_noflags (cfgPlain cap) ⟨rfl, rfl, rfl, rfl, rfl, rfl⟩ c
   simp [convAtom, this]
 
-theorem atomsDen_chars (t s : Str) : atomsDen (t.map Atom.chr) s ↔ s = t := by
+theorem atomsDen_chars (t s : Str) : atomsDen false (t.map Atom.chr) s ↔ s = t := by
   induction t generalizing s with
   | nil => simp [atomsDen]
   | cons c r ih =>
-    simp only [List.map_cons, atomsDen, atomDen]
+    simp only [List.map_cons, atomsDen, atomDen, chrMatches_false]
     constructor
     · rintro ⟨x, r', rfl, rfl, h⟩; rw [(ih r').mp h]
     · rintro rfl; exact ⟨c, r, rfl, rfl, (ih r).mpr rfl⟩
